@@ -120,6 +120,8 @@ where
             self.file.seek(SeekFrom::Start(absolute_offset)).unwrap();
         }
 
+        #[cfg(feature = "verif_hooks")]
+        rawdb::verif::access(|| rawdb::verif::AccessEvent::File { offset: absolute_offset as usize, len: total_bytes });
         self.file
             .read_exact(&mut self.buffer[..total_bytes])
             .unwrap();
